@@ -68,6 +68,18 @@ pub struct C05Scn {
 }
 
 pub fn build(s: &C05Scn) -> WorldSys {
+	if s.ops.iter().any(|o| matches!(o, Op::OpenBatch { .. })) {
+		// channel opening with a batch funding transaction and a peer that announces two different points
+		let mut w = World::new((0..3).map(|_| crate::checks::c01::user_config(s.ct)).collect(), 253);
+		w.connect(0, 1);
+		w.connect(0, 2);
+		let mut sys = WorldSys::new(w, Vec::new(), s.ops.clone());
+		sys.ops_first = s.ops_first;
+		sys.dev = s.dev.clone();
+		sys.oracles.push(Box::new(crate::oracles::ForgedPointOracle::default()));
+		sys.w.obs_cursor = sys.w.obs.len();
+		return sys;
+	}
 	if s.restart {
 		let (w, chans) = crate::checks::c09::line_world(s.ct, 2, &[1]);
 		let infos = chan_infos(&w, &chans);
@@ -122,6 +134,24 @@ pub fn scenarios(tier: Tier) -> Vec<C05Scn> {
 			continue;
 		}
 		let n = format!("{:?}", ct);
+		// a peer announcing two different commitment points (repeated channel_ready) at any two points of a
+		// batch-funded channel opening
+		v.push(C05Scn {
+			name: format!("{}-batch-open-conflicting-channel-ready", n),
+			ct,
+			ops: vec![
+				Op::OpenBatch { from: 0, to: vec![1, 2] },
+				Op::ForgeChannelReady { to: 0, from: 1, variant: 1 },
+				Op::ForgeChannelReady { to: 0, from: 1, variant: 2 },
+			],
+			ops_first: false,
+			dev: Deviations { reorder: Some(1), early_op: Some(0), ..Deviations::default() },
+			k: 1,
+			max_disconnects: 0,
+			force: false,
+			tamper: false,
+			restart: false,
+		});
 		v.push(C05Scn {
 			name: format!("{}-cross", n),
 			ct,
@@ -226,6 +256,7 @@ pub fn run(args: &Args) -> i32 {
 			&mut ev,
 			&[
 				"c05-release-secret",
+				"c05-conflicting-point-rejected",
 				"c05-sign-counterparty",
 				"c05-sign-holder-commitment",
 				"c05-broadcast-holder-commitment",
